@@ -11,11 +11,10 @@
       src/jobc.rs     wait_fg_job (one loop iteration = [wait_body]),
                       try_wait_bg_jobs, mark_job_as_done, mark_job_member_stopped /
                       _continued (with the lines they print)
-      src/shell.rs    remove_pid_from_job (by position), mark_job_member_continued
-                      (sets Running since ac01883); the other job-table methods
-                      come from Model/Jobs.v
-      src/signals.rs  the parked maps; a parked stop and a parked continue of
-                      one pid supersede each other since ac20f13 ([park2])
+      src/shell.rs, src/signals.rs, the job-table part of src/jobc.rs:
+                      NOT transcribed here; every change of the job table and
+                      of the parked maps is made by the functions of
+                      Model/Jobs.v (C06's model, which follows the repaired code)
       src/builtins    fg.rs, bg.rs, jobs.rs
       src/main.rs     the read loop: an empty line polls, every other line ends
                       with a poll ([end_of_line])
@@ -44,6 +43,11 @@
          been reaped); handing the terminal back to the shell's own group
          always succeeds.
     Pids are supplied by the launch action (the environment chooses them).
+      K7 Ctrl-C / Ctrl-Z / Ctrl-\ typed while the terminal is in cooked mode send
+         SIGINT / SIGTSTP / SIGQUIT to the terminal's foreground group. The shell
+         ignores all three (main.rs; SIGINT since /repo 4ca5f35, children restore
+         the defaults after fork in core.rs), so the shell itself never dies or
+         stops of a key, whichever group is in the foreground; see [key].
     A typed line while the shell is waiting is ignored (the shell is not
     reading). Keys at the prompt are read by lineread in raw mode: no signal.
     No proofs in this file. *)
@@ -149,154 +153,148 @@ Inductive out :=
 | ONoSuch
 | OJobLine (id gid : Z) (st : jstat) (amp : bool).
 
-(** ---------- shell side: the part that never touches the terminal *)
-Record core := mkcore { procs : list proc; tab : table; mps : maps; outs : list out }.
+(** ---------- shell side: the part that never touches the terminal.
+    The job table and the parked maps are a [Jobs.shell]; every change of it
+    is made by the functions of Model/Jobs.v (C06's model). What the shell
+    prints is computed beside, from the shell value before the change. *)
+Record core := mkcore { procs : list proc; shl : shell; outs : list out }.
 
-Definition set_procs (k : core) (ps : list proc) : core := mkcore ps (tab k) (mps k) (outs k).
-Definition say (k : core) (o : list out) : core := mkcore (procs k) (tab k) (mps k) (outs k ++ o).
+Definition ctab (k : core) : table := tab (shl k).
+Definition set_procs (k : core) (ps : list proc) : core := mkcore ps (shl k) (outs k).
+Definition say (k : core) (o : list out) : core := mkcore (procs k) (shl k) (outs k ++ o).
 
-(** shell.rs remove_pid_from_job: position of the pid in the job with this gid *)
-Fixpoint remove_first (x : Z) (l : list Z) : list Z :=
-  match l with [] => [] | y :: r => if y =? x then r else y :: remove_first x r end.
+(** jobc.rs mark_job_as_done prints the job when remove_pid_from_job dropped it and it was background *)
+Definition done_report (t : table) (gid pid reason : Z) : list out :=
+  if remove_drops t gid pid then
+    match get_job_by_gid t gid with
+    | Some j => if jbg j then [ODone (jid j) gid reason] else []
+    | None => []
+    end
+  else [].
 
-Fixpoint remove_pid (t : table) (gid pid : Z) : table * option job :=
-  match t with
-  | [] => ([], None)
-  | j :: r =>
-      if jgid j =? gid then
-        match remove_first pid (jpids j) with
-        | [] => (r, Some (mkjob (jid j) (jgid j) [] (jstopped j) (jst j) (jbg j)))
-        | l => (mkjob (jid j) (jgid j) l (jstopped j) (jst j) (jbg j) :: r, None)
-        end
-      else let '(r', o) := remove_pid r gid pid in (j :: r', o)
-  end.
+(** jobc.rs mark_job_member_stopped prints the job when [report] and the stop made every member stopped *)
+Definition stop_report (report : bool) (t : table) (pid gid : Z) : list out :=
+  if report then
+    match sh_mark_job_member_stopped t pid gid with
+    | (t', Some j) =>
+        if all_members_stopped j then
+          match get_job_by_gid (sh_mark_job_as_stopped t' gid) gid with
+          | Some j2 => [OStopped (jid j2) gid]
+          | None => []
+          end
+        else []
+    | (_, None) => []
+    end
+  else [].
 
-(** jobc.rs mark_job_as_done *)
-Definition job_done (k : core) (gid pid reason : Z) : core :=
-  match remove_pid (tab k) gid pid with
-  | (t, Some j) => mkcore (procs k) t (mps k) (outs k ++ (if jbg j then [ODone (jid j) gid reason] else []))
-  | (t, None) =>
-      (* the job lives on: if every remaining member is stopped, so is the job (2503a9b) *)
-      let all_stopped := match get_job_by_gid t gid with
-                         | Some j => match jst j with Stopped => false | Running => all_members_stopped j end
-                         | None => false
-                         end in
-      mkcore (procs k) (if all_stopped then sh_mark_job_as_stopped t gid else t) (mps k) (outs k)
-  end.
-
-(** jobc.rs mark_job_member_stopped (the wrapper looks the job up by [gid] as given) *)
-Definition member_stopped (k : core) (pid gid : Z) (report : bool) : core :=
-  match sh_mark_job_member_stopped (tab k) pid gid with
-  | (t, Some j) =>
-      if all_members_stopped j then
-        let t2 := sh_mark_job_as_stopped t gid in
-        mkcore (procs k) t2 (mps k)
-               (outs k ++ (if report then match get_job_by_gid t2 gid with
-                                          | Some j2 => [OStopped (jid j2) gid]
-                                          | None => [] end
-                           else []))
-      else mkcore (procs k) t (mps k) (outs k)
-  | (t, None) => mkcore (procs k) t (mps k) (outs k)
-  end.
-
-(** shell.rs mark_job_member_continued: the pid leaves the stopped set and the job is Running (ac01883) *)
-Definition sh_member_continued (t : table) (pid gid : Z) : table * option job :=
-  let t' := upd_gid (fun j => mkjob (jid j) (jgid j) (jpids j) (set_remove pid (jstopped j)) Running (jbg j)) gid t in
-  (t', get_job_by_gid t' gid).
-
-(** jobc.rs mark_job_member_continued *)
-Definition member_continued (k : core) (pid gid : Z) : core :=
-  match sh_member_continued (tab k) pid gid with
-  | (t, Some j) => mkcore (procs k) (if all_members_running j then sh_mark_job_as_running t gid true else t) (mps k) (outs k)
-  | (t, None) => mkcore (procs k) t (mps k) (outs k)
-  end.
-
-(** signals.rs insert_*_map: a stop removes a parked continue of the pid and vice versa (ac20f13) *)
-Definition park2 (m : maps) (e : ev) : maps :=
-  match e with
-  | Exited p s => mkmaps (map_put p s (m_reap m)) (m_stop m) (m_cont m) (m_kill m)
-  | StoppedE p _ => mkmaps (m_reap m) (set_add p (m_stop m)) (set_remove p (m_cont m)) (m_kill m)
-  | Continued p => mkmaps (m_reap m) (set_remove p (m_stop m)) (set_add p (m_cont m)) (m_kill m)
-  | Signaled p s => mkmaps (m_reap m) (m_stop m) (m_cont m) (map_put p s (m_kill m))
-  end.
-
-Definition park_ev (k : core) (e : ev) : core := mkcore (procs k) (tab k) (park2 (mps k) e) (outs k).
-
-(** one iteration of the loop of wait_fg_job for the status [e]; returns the
-    new set of settled members (exited / killed / currently stopped), 1687e77 *)
-Definition wait_body (k : core) (gid : Z) (pids : list Z) (waited : list Z) (e : ev) : core * list Z :=
+(** one iteration of the loop of wait_fg_job for the status [e] (the body of
+    [Jobs.wait_loop], see [wait_loop_cons] in Proofs/TermSim.v): new shell,
+    new set of settled members *)
+Definition wait_one (s : shell) (gid : Z) (pids : list Z) (settled : list Z) (e : ev) : shell * list Z :=
   let pid := ev_pid e in
   let is_fg := memZ pid pids in
-  let waited' := if is_fg then (if is_cont e then set_remove pid waited else set_add pid waited) else waited in
-  let k' :=
+  let settled' := if is_fg then (if is_cont e then hs_remove pid settled else hs_add pid settled) else settled in
+  let s' :=
     match e with
-    | Exited _ _ => if is_fg then job_done k gid pid (-1) else park_ev k e
-    | StoppedE _ _ =>
-        if is_fg then member_stopped k pid gid true
-        else member_stopped (park_ev k e) pid 0 false
     | Continued _ =>
-        if is_fg then mkcore (procs k) (fst (sh_member_continued (tab k) pid gid)) (mps k) (outs k)
-        else park_ev k e
-    | Signaled _ _ => if is_fg then job_done k gid pid (-2) else park_ev k e
+        if is_fg then mksh (fst (sh_mark_job_member_continued (tab s) pid gid)) (mp s)
+        else mksh (tab s) (park (mp s) e)
+    | Exited _ _ | Signaled _ _ =>
+        if is_fg then mksh (mark_job_as_done (tab s) gid pid) (mp s)
+        else mksh (tab s) (park (mp s) e)
+    | StoppedE _ _ =>
+        if is_fg then mksh (mark_job_member_stopped (tab s) pid gid) (mp s)
+        else mksh (mark_job_member_stopped (tab s) pid 0) (park (mp s) e)
     end in
-  (k', waited').
+  (s', settled').
 
-(** signals.rs handle_sigchld: waitpid(-1, WNOHANG) until nothing is left *)
-Fixpoint drain (fuel : nat) (k : core) : core :=
+Definition wait_report (s : shell) (gid : Z) (pids : list Z) (e : ev) : list out :=
+  let pid := ev_pid e in
+  if memZ pid pids then
+    match e with
+    | Exited _ _ => done_report (tab s) gid pid (-1)
+    | Signaled _ _ => done_report (tab s) gid pid (-2)
+    | StoppedE _ _ => stop_report true (tab s) pid gid
+    | Continued _ => []
+    end
+  else [].
+
+Definition wait_body (k : core) (gid : Z) (pids : list Z) (settled : list Z) (e : ev) : core * list Z :=
+  let '(s', settled') := wait_one (shl k) gid pids settled e in
+  (mkcore (procs k) s' (outs k ++ wait_report (shl k) gid pids e), settled').
+
+(** signals.rs handle_sigchld: waitpid(-1, WNOHANG) until nothing is left:
+    the statuses in the order the kernel hands them out, and the processes afterwards *)
+Fixpoint drain (fuel : nat) (ps : list proc) : list ev * list proc :=
   match fuel with
-  | O => k
-  | S f => match next_status (procs k) with
-           | Some (e, ps) => drain f (park_ev (set_procs k ps) e)
-           | None => k
+  | O => ([], ps)
+  | S f => match next_status ps with
+           | Some (e, ps') => let '(q, ps'') := drain f ps' in (e :: q, ps'')
+           | None => ([], ps)
            end
   end.
 
-(** jobc.rs try_wait_bg_jobs, the body for one pid of one job of the cloned table *)
-Definition poll_pid (report : bool) (gid : Z) (k : core) (pid : Z) : core :=
-  let m := mps k in
+(** what try_wait_bg_jobs prints for one pid of one job (same tests as [Jobs.poll_pid]) *)
+Definition pid_report (report : bool) (gid : Z) (s : shell) (pid : Z) : list out :=
+  let m := mp s in
   match map_get pid (m_reap m) with
-  | Some _ =>
-      job_done (mkcore (procs k) (tab k) (mkmaps (map_del pid (m_reap m)) (m_stop m) (m_cont m) (m_kill m)) (outs k))
-               gid pid (-1)
+  | Some _ => done_report (tab s) gid pid (-1)
   | None =>
       match map_get pid (m_kill m) with
-      | Some sig =>
-          job_done (mkcore (procs k) (tab k) (mkmaps (m_reap m) (m_stop m) (m_cont m) (map_del pid (m_kill m))) (outs k))
-                   gid pid sig
-      | None =>
-          if memZ pid (m_stop m) then
-            member_stopped (mkcore (procs k) (tab k) (mkmaps (m_reap m) (set_remove pid (m_stop m)) (m_cont m) (m_kill m)) (outs k))
-                           pid gid report
-          else if memZ pid (m_cont m) then
-            member_continued (mkcore (procs k) (tab k) (mkmaps (m_reap m) (m_stop m) (set_remove pid (m_cont m)) (m_kill m)) (outs k))
-                             pid gid
-          else k
+      | Some sig => done_report (tab s) gid pid sig
+      | None => if memZ pid (m_stop m) then stop_report report (tab s) pid gid else []
       end
   end.
 
-Definition poll_job (report : bool) (k : core) (j : job) : core :=
-  fold_left (poll_pid report (jgid j)) (jpids j) k.
+Definition poll_pid_o (report : bool) (gid : Z) (so : shell * list out) (pid : Z) : shell * list out :=
+  (poll_pid gid (fst so) pid, snd so ++ pid_report report gid (fst so) pid).
+Definition poll_job_o (report : bool) (so : shell * list out) (j : job) : shell * list out :=
+  fold_left (poll_pid_o report (jgid j)) (jpids j) so.
+Definition poll_reports (report : bool) (s1 : shell) : list out :=
+  snd (fold_left (poll_job_o report) (tab s1) (s1, [])).
+
+(** jobc.rs try_wait_bg_jobs: the shell part is [Jobs.try_wait_bg_jobs] on the
+    statuses drained from the kernel; nothing is drained when the table is empty *)
+Definition poll_evs (k : core) : list ev * list proc :=
+  match ctab k with
+  | [] => ([], procs k)
+  | _ => drain (S (length (procs k))) (procs k)
+  end.
 
 Definition poll (report : bool) (k : core) : core :=
-  match tab k with
+  let '(q, ps) := poll_evs k in
+  match ctab k with
   | [] => k
-  | _ => let k1 := drain (S (length (procs k))) k in
-         fold_left (poll_job report) (tab k1) k1
+  | _ => mkcore ps (fst (try_wait_bg_jobs (shl k) q))
+                (outs k ++ poll_reports report (mksh (tab (shl k)) (handle_sigchld (mp (shl k)) q)))
   end.
 
 (** ---------- shell side: the terminal *)
 Inductive via := VLaunch (term_given : bool) | VFg.
 Inductive mode := AtPrompt | Waiting (gid : Z) (pids : list Z) (settled : list Z) (v : via).
 
-Record st := mkst { k : core; md : mode; owner : Z }.
+(** [gh] is a ghost: the job-table operations performed so far, as a history
+    of C06's model ([Jobs.op]); [wevs] the statuses the current foreground wait
+    has consumed so far. Nothing reads them; Proofs/TermSim.v shows that the
+    shell value is [Jobs.run gh]. The mapping:
+      launch of a pipeline (isatty)        Launch pid0 pids bg
+      a foreground wait, when it returns   Wait gid pids (all statuses it consumed, in order)
+      the poll at the end of a line, the
+      poll of an empty line, the poll
+      inside [jobs]                        Poll (the statuses drained from the kernel; none when the table is empty)
+      fg / bg                              no C06 operation (they change the table themselves) *)
+Record st := mkst { k : core; md : mode; owner : Z; gh : list op; wevs : list ev }.
 
 Record cfg := mkcfg { c_sh : Z; c_hasterm : bool; c_isatty : bool }.
 
+(** main.rs: the poll after every line, then the prompt *)
+Definition end_of_line (k : core) (ow : Z) (g : list op) : st :=
+  mkst (poll true k) AtPrompt ow (g ++ [Poll (fst (poll_evs k))]) [].
+
 (** after wait_fg_job returned: run_proc hands the terminal back iff term_given,
     fg.rs hands it back always; then main.rs polls and prompts *)
-Definition finish (c : cfg) (k : core) (v : via) (ow : Z) : st :=
-  mkst (poll true k) AtPrompt
-       (match v with VFg => c_sh c | VLaunch tg => if tg then c_sh c else ow end).
+Definition finish (c : cfg) (k : core) (v : via) (ow : Z) (g : list op) : st :=
+  end_of_line k (match v with VFg => c_sh c | VLaunch tg => if tg then c_sh c else ow end) g.
 
 Fixpoint settle (c : cfg) (fuel : nat) (s : st) : st :=
   match fuel with
@@ -308,22 +306,23 @@ Fixpoint settle (c : cfg) (fuel : nat) (s : st) : st :=
           match next_status (procs (k s)) with
           | Some (e, ps) =>
               let '(k', w') := wait_body (set_procs (k s) ps) gid pids w e in
-              if negb (is_cont e) && (length pids <=? length w')%nat then finish c k' v (owner s)
-              else settle c f (mkst k' (Waiting gid pids w' v) (owner s))
-          | None => if all_gone (procs (k s)) then finish c (k s) v (owner s) else s
+              if negb (is_cont e) && (length pids <=? length w')%nat
+              then finish c k' v (owner s) (gh s ++ [Wait gid pids (wevs s ++ [e])])
+              else settle c f (mkst k' (Waiting gid pids w' v) (owner s) (gh s) (wevs s ++ [e]))
+          | None =>
+              (* K4: waitpid fails with ECHILD, the loop breaks *)
+              if all_gone (procs (k s)) then finish c (k s) v (owner s) (gh s ++ [Wait gid pids (wevs s)]) else s
           end
       end
   end.
 
 Definition settle_all (c : cfg) (s : st) : st := settle c (S (length (procs (k s)))) s.
 
-Definition enter_wait (c : cfg) (k : core) (gid : Z) (pids : list Z) (v : via) (ow : Z) : st :=
+Definition enter_wait (c : cfg) (k : core) (gid : Z) (pids : list Z) (v : via) (ow : Z) (g : list op) : st :=
   match pids with
-  | [] => finish c k v ow
-  | _ => settle_all c (mkst k (Waiting gid pids [] v) ow)
+  | [] => finish c k v ow (g ++ [Wait gid [] []])
+  | _ => settle_all c (mkst k (Waiting gid pids [] v) ow g [])
   end.
-
-Definition end_of_line (k : core) (ow : Z) : st := mkst (poll true k) AtPrompt ow.
 
 (** the children of one launch (K5): every stage is in the group of stage 0 *)
 Definition stages (p0 : Z) (pids : list Z) : list proc :=
@@ -337,11 +336,13 @@ Definition launch (c : cfg) (s : st) (pids : list Z) (bg : bool) : st :=
       (* give_terminal_to(pid0) iff has_terminal && isatty && !background; K6 *)
       let tg := c_hasterm c && c_isatty c && negb bg && group_exists p0 ps in
       let ow := if tg then p0 else owner s in
-      let t := if c_isatty c then fold_left (fun t p => insert_job t p0 p bg) pids (tab (k s)) else tab (k s) in
+      (* insert_job iff isatty (capture is false for typed lines) *)
+      let sh' := if c_isatty c then mksh (Jobs.launch (ctab (k s)) p0 pids bg) (mp (shl (k s))) else shl (k s) in
+      let g := if c_isatty c then gh s ++ [Launch p0 pids bg] else gh s in
       if bg then
-        let o := match get_job_by_gid t p0 with Some j => [OBgLaunch (jid j) p0] | None => [] end in
-        end_of_line (mkcore ps t (mps (k s)) o) ow
-      else enter_wait c (mkcore ps t (mps (k s)) []) p0 pids (VLaunch tg) ow
+        let o := match get_job_by_gid (tab sh') p0 with Some j => [OBgLaunch (jid j) p0] | None => [] end in
+        end_of_line (mkcore ps sh' o) ow g
+      else enter_wait c (mkcore ps sh' []) p0 pids (VLaunch tg) ow g
   end.
 
 Fixpoint get_job_by_id (t : table) (id : Z) : option job :=
@@ -353,36 +354,39 @@ Definition find_job (t : table) (arg : option Z) (pick : Z) : option job :=
   let id := match arg with Some n => n | None => pick end in
   match get_job_by_id t id with Some j => Some j | None => get_job_by_gid t id end.
 
+Definition quiet (k : core) : core := mkcore (procs k) (shl k) [].
+
 Definition do_fg (c : cfg) (s : st) (arg : option Z) (pick : Z) : st :=
-  let k0 := mkcore (procs (k s)) (tab (k s)) (mps (k s)) [] in
-  match tab (k s) with
-  | [] => end_of_line (say k0 [ONoJob]) (owner s)
+  let k0 := quiet (k s) in
+  match ctab k0 with
+  | [] => end_of_line (say k0 [ONoJob]) (owner s) (gh s)
   | _ =>
-      match find_job (tab (k s)) arg pick with
-      | None => end_of_line (say k0 [ONoSuch]) (owner s)
+      match find_job (ctab k0) arg pick with
+      | None => end_of_line (say k0 [ONoSuch]) (owner s) (gh s)
       | Some j =>
           let k1 := say k0 [OFgCmd (jid j)] in
           if group_exists (jgid j) (procs k1) then
             let ps := on_group (deliver SIGCONT) (jgid j) (procs k1) in
-            let k2 := mkcore ps (sh_mark_job_as_running (tab k1) (jgid j) false) (mps k1) (outs k1) in
-            enter_wait c k2 (jgid j) (jpids j) VFg (jgid j)
-          else end_of_line k1 (owner s)
+            let k2 := mkcore ps (mksh (sh_mark_job_as_running (ctab k1) (jgid j) false) (mp (shl k1))) (outs k1) in
+            enter_wait c k2 (jgid j) (jpids j) VFg (jgid j) (gh s)
+          else end_of_line k1 (owner s) (gh s)
       end
   end.
 
 Definition do_bg (s : st) (arg : option Z) (pick : Z) : st :=
-  let k0 := mkcore (procs (k s)) (tab (k s)) (mps (k s)) [] in
-  match tab (k s) with
-  | [] => end_of_line (say k0 [ONoJob]) (owner s)
+  let k0 := quiet (k s) in
+  match ctab k0 with
+  | [] => end_of_line (say k0 [ONoJob]) (owner s) (gh s)
   | _ =>
-      match find_job (tab (k s)) arg pick with
-      | None => end_of_line (say k0 [ONoSuch]) (owner s)
+      match find_job (ctab k0) arg pick with
+      | None => end_of_line (say k0 [ONoSuch]) (owner s) (gh s)
       | Some j =>
           let ps := on_group (deliver SIGCONT) (jgid j) (procs k0) in
           match jst j with
-          | Running => end_of_line (mkcore ps (tab k0) (mps k0) [OAlreadyBg (jid j)]) (owner s)
+          | Running => end_of_line (mkcore ps (shl k0) [OAlreadyBg (jid j)]) (owner s) (gh s)
           | Stopped =>
-              end_of_line (mkcore ps (sh_mark_job_as_running (tab k0) (jgid j) true) (mps k0) [OBgCmd (jid j)]) (owner s)
+              end_of_line (mkcore ps (mksh (sh_mark_job_as_running (ctab k0) (jgid j) true) (mp (shl k0))) [OBgCmd (jid j)])
+                          (owner s) (gh s)
           end
       end
   end.
@@ -390,12 +394,13 @@ Definition do_bg (s : st) (arg : option Z) (pick : Z) : st :=
 Definition job_line (j : job) : out :=
   OJobLine (jid j) (jgid j) (jst j) (jbg j && match jst j with Running => true | Stopped => false end).
 
+(** jobs.rs: nothing when the table is empty, else a poll without notices, then the lines *)
 Definition do_jobs (s : st) : st :=
-  let k0 := mkcore (procs (k s)) (tab (k s)) (mps (k s)) [] in
-  match tab k0 with
-  | [] => end_of_line k0 (owner s)
+  let k0 := quiet (k s) in
+  match ctab k0 with
+  | [] => end_of_line k0 (owner s) (gh s)
   | _ => let k1 := poll false k0 in
-         end_of_line (say k1 (map job_line (tab k1))) (owner s)
+         end_of_line (say k1 (map job_line (ctab k1))) (owner s) (gh s ++ [Poll (fst (poll_evs k0))])
   end.
 
 Inductive action :=
@@ -410,11 +415,20 @@ Inductive action :=
 | EExit (pid code : Z)    (* a process ends by itself *)
 | ESig (pid sig : Z).     (* a signal sent to one process from outside *)
 
-Definition clear (s : st) : st := mkst (mkcore (procs (k s)) (tab (k s)) (mps (k s)) []) (md s) (owner s).
+Definition clear (s : st) : st := mkst (quiet (k s)) (md s) (owner s) (gh s) (wevs s).
 
 Definition kernel (c : cfg) (s : st) (f : list proc -> list proc) : st :=
-  settle_all c (mkst (mkcore (f (procs (k s))) (tab (k s)) (mps (k s)) []) (md s) (owner s)).
+  settle_all c (mkst (mkcore (f (procs (k s))) (shl (k s)) []) (md s) (owner s) (gh s) (wevs s)).
 
+(** K7: a key that raises a signal (terminal in cooked mode, that is while the
+    shell is not reading a line) sends it to every process of the terminal's
+    foreground group (K1). The shell itself is not in [procs]: it ignores
+    SIGTSTP and SIGQUIT (main.rs: signal(SIGTSTP, SIG_IGN), signal(SIGQUIT,
+    SIG_IGN)) and, since /repo 4ca5f35, SIGINT (main.rs: signal(SIGINT,
+    SIG_IGN) once interactive; the children restore the defaults after fork,
+    core.rs), so when the foreground group is the shell's own the key changes
+    nothing in the shell: it never dies of Ctrl-C / Ctrl-Z / Ctrl-\. At the
+    prompt the keys are read by lineread in raw mode: no signal at all. *)
 Definition key (c : cfg) (s : st) (sig : Z) : st :=
   match md s with
   | AtPrompt => clear s
@@ -433,15 +447,15 @@ Definition step (c : cfg) (s : st) (a : action) : st :=
   | AFg arg pick => typed s (fun s => do_fg c s arg pick)
   | ABg arg pick => typed s (fun s => do_bg s arg pick)
   | AJobs => typed s do_jobs
-  | AEmpty => typed s (fun s => end_of_line (mkcore (procs (k s)) (tab (k s)) (mps (k s)) []) (owner s))
-  | ABuiltin => typed s (fun s => end_of_line (mkcore (procs (k s)) (tab (k s)) (mps (k s)) []) (owner s))
+  | AEmpty => typed s (fun s => end_of_line (quiet (k s)) (owner s) (gh s))
+  | ABuiltin => typed s (fun s => end_of_line (quiet (k s)) (owner s) (gh s))
   | ACtrlZ => key c s SIGTSTP
   | ACtrlC => key c s SIGINT
   | EExit pid code => kernel c s (on_pid (do_exit code) pid)
   | ESig pid sig => kernel c s (on_pid (deliver sig) pid)
   end.
 
-Definition init (c : cfg) : st := mkst (mkcore [] [] empty_maps []) AtPrompt (c_sh c).
+Definition init (c : cfg) : st := mkst (mkcore [] empty_shell []) AtPrompt (c_sh c) [] [].
 
 Definition run (c : cfg) (acts : list action) : st := fold_left (step c) acts (init c).
 
